@@ -57,6 +57,9 @@ impl StateMachine<'_> {
         // (it connects the plus_file and minus_file),
         // and to call fn handle_generic_diff_header_header_line directly.
         if self.config.color_only {
+            // Lines painted so far (a hunk that ends in removed/added lines directly before a
+            // `--- ` line of plain diff output) come before the header line.
+            self.painter.emit()?;
             write_generic_diff_header_header_line(
                 &self.line,
                 &self.raw_line,
